@@ -7,6 +7,7 @@
        (the harness keeps its own incarnation bookkeeping). *)
 From Coq Require Import NArith List Bool.
 From RsM Require Import Model.Lifecycle.
+(* -- *)
 Import ListNotations.
 Open Scope N_scope.
 
